@@ -247,6 +247,17 @@ impl Connection {
         Ok(())
     }
     
+    /// Has the peer closed its end? (looks at the socket without consuming input)
+    pub fn peer_closed(&self) -> bool {
+        let mut probe = [0u8; 1];
+        match self.stream.peek(&mut probe) {
+            Ok(0) => true,
+            Ok(_) => false,
+            Err(e) if e.kind() == ErrorKind::WouldBlock || e.kind() == ErrorKind::Interrupted => false,
+            Err(_) => true,
+        }
+    }
+    
     /// Check if the connection is closing
     pub fn is_closing(&self) -> bool {
         self.state == ConnectionState::Closing
